@@ -281,8 +281,24 @@ pub enum Parens {
 
 pub struct Printer {
     pub parens: Parens,
+    /// plain `char` is signed (--fsigned_char): U8 is always spelled `unsigned char`
+    pub plain_char_signed: bool,
     pub out: String,
     indent: usize,
+}
+
+pub fn spell_ty(t: Ty, explicit_sign: bool, plain_char_signed: bool) -> &'static str {
+    match (t, plain_char_signed) {
+        (Ty::U8, true) => "unsigned char",
+        (Ty::I8, true) => {
+            if explicit_sign {
+                "signed char"
+            } else {
+                "char"
+            }
+        }
+        _ => t.spell(explicit_sign),
+    }
 }
 
 const PREC_COMMA: u8 = 1;
@@ -303,7 +319,7 @@ pub fn fmt_lit(v: i32, f: LitFmt) -> String {
 
 impl Printer {
     pub fn new(parens: Parens) -> Printer {
-        Printer { parens, out: String::new(), indent: 0 }
+        Printer { parens, plain_char_signed: false, out: String::new(), indent: 0 }
     }
 
     fn lv(&mut self, lv: &LValue) -> String {
@@ -382,7 +398,10 @@ impl Printer {
                 format!("{} {} {}", l, o, r)
             }
             Expr::IncDec(inc, prefix, lv) => {
-                let l = self.lv(lv);
+                let mut l = self.lv(lv);
+                if let LValue::Deref(_) = lv {
+                    l = format!("({})", l);
+                }
                 let o = if *inc { "++" } else { "--" };
                 if *prefix {
                     format!("{}{}", o, l)
@@ -395,9 +414,10 @@ impl Printer {
                 format!("{}({})", f, a.join(", "))
             }
             Expr::Ternary(c, a, b) => {
+                // nested conditionals are always parenthesised (the compiler's grammar wants it)
                 let (pc, pa, pb) = match self.parens {
                     Parens::Full => (16, 16, 16),
-                    Parens::Minimal => (4, PREC_ASSIGN, PREC_TERNARY),
+                    Parens::Minimal => (4, 4, 4),
                 };
                 let c = self.expr(c, pc);
                 let a = self.expr(a, pa);
@@ -435,7 +455,7 @@ impl Printer {
             MemQual::Ramchip => q.push_str("ramchip "),
             MemQual::Bank(n) => q.push_str(&format!("bank{} ", n)),
         }
-        let base = if d.ty == Ty::Ptr { "char".to_string() } else { d.ty.spell(d.explicit_sign).to_string() };
+        let base = if d.ty == Ty::Ptr { "char".to_string() } else { spell_ty(d.ty, d.explicit_sign, self.plain_char_signed).to_string() };
         let star = if d.ty == Ty::Ptr { "*" } else { "" };
         match &d.kind {
             VarKind::Scalar => {
@@ -477,7 +497,12 @@ impl Printer {
             Stmt::If(c, a, b) => {
                 let c = self.expr(c, 0);
                 self.line(&format!("if ({})", c));
-                self.body(a);
+                if b.is_some() && !matches!(**a, Stmt::Block(_)) {
+                    // braces keep the else attached to this if (dangling-else)
+                    self.stmt(&Stmt::Block(vec![(**a).clone()]));
+                } else {
+                    self.body(a);
+                }
                 if let Some(b) = b {
                     self.line("else");
                     self.body(b);
@@ -567,10 +592,10 @@ impl Printer {
         }
     }
 
-    pub fn func_header(f: &Func) -> String {
+    pub fn func_header(f: &Func, pcs: bool) -> String {
         let ret = match f.ret {
             None => "void".to_string(),
-            Some(t) => t.spell(false).to_string(),
+            Some(t) => spell_ty(t, false, pcs).to_string(),
         };
         let params: Vec<String> = f
             .params
@@ -579,7 +604,7 @@ impl Printer {
                 if *t == Ty::Ptr {
                     format!("char *{}", n)
                 } else {
-                    format!("{} {}", t.spell(false), n)
+                    format!("{} {}", spell_ty(*t, false, pcs), n)
                 }
             })
             .collect();
@@ -600,13 +625,13 @@ impl Printer {
         }
         for f in &p.funcs {
             if f.proto {
-                let h = Self::func_header(&Func { inline: false, ..f.clone() });
+                let h = Self::func_header(&Func { inline: false, ..f.clone() }, self.plain_char_signed);
                 self.line(&format!("{};", h));
             }
         }
         for f in &p.funcs {
             self.line("");
-            let h = Self::func_header(f);
+            let h = Self::func_header(f, self.plain_char_signed);
             self.line(&h);
             self.line("{");
             self.indent += 1;
@@ -617,6 +642,13 @@ impl Printer {
             self.line("}");
         }
     }
+}
+
+pub fn print_program_sc(p: &Program, parens: Parens, plain_char_signed: bool) -> String {
+    let mut pr = Printer::new(parens);
+    pr.plain_char_signed = plain_char_signed;
+    pr.program(p);
+    pr.out
 }
 
 pub fn print_program(p: &Program, parens: Parens) -> String {
